@@ -16,7 +16,7 @@ RULE = ("Cases: a catalogue of public numeric entry points x drawn signals (32..
         "hilberthuang, hilberthuang_1d, holospectrum, get_cycle_vector+mask, get_cycle_stat, phase_align, bin_by_phase: "
         "mismatched first dimensions must raise; (options) sift variants and both second-layer sifts with caller-owned option "
         "dicts. Every call: inputs byte-identical afterwards (read-only inputs must be accepted), option dicts deepcopy-equal "
-        "afterwards, a second identical call returns identical output. Non-trivial: every (routine, layout) evaluation that "
+        "afterwards, a second identical call - made after the caller has overwritten the arrays returned by the first - returns identical output. Non-trivial: every (routine, layout) evaluation that "
         "compares >= 2 accepted layouts or must reject.")
 ASSUMPTIONS = ["amplitude_normalise and hilberthuang_1d document 2-D input only: plain vectors are not demanded of them",
                "any exception type counts as rejection; returning a result does not"]
@@ -98,10 +98,18 @@ def call_checked(name, f, arrays, opts, rec, readonly):
             raise Violation('C19/%s/input-modified' % name, '')
     if o is not None and not deep_equal(o, o_before):
         raise Violation('C19/%s/option-dict-modified' % name, 'before %r after %r' % (o_before, o))
+    # a caller may do what it likes with the arrays it was handed back: scribble over them, then repeat the call
+    keep = copy.deepcopy(out)
+    outs = [o_ for o_ in (out if isinstance(out, tuple) else (out,)) if isinstance(o_, np.ndarray)]
+    for o_ in outs:
+        if o_.flags.writeable and o_.dtype.kind in 'fiu' and not any(np.shares_memory(o_, a) for a in ins):
+            o_ *= 3
+            o_ += 1
     out2 = f(*ins, o) if o is not None else f(*ins)
-    if not same(out, out2):
-        raise Violation('C19/%s/not-deterministic' % name, '')
-    return out
+    if not same(keep, out2):
+        raise Violation('C19/%s/not-deterministic' % name, 'a repeated identical call (after the first result had been '
+                        'overwritten by the caller) returned something else')
+    return keep
 
 
 def deep_equal(a, b):
@@ -311,7 +319,8 @@ def oracle_options(case, rec):
         f = lambda IA, o: emd.sift.mask_sift_second_layer(IA, freqs, sift_args=o)   # noqa: E731
         arrays = [ia]
     elif name == 'mask_sift+array-amp':
-        o = dict(base, mask_amp=np.array([1.0, 0.5, 2.0]), mask_freqs=np.array(freqs), max_imfs=3, nphases=2)
+        o = dict(base, mask_amp=np.array([1.0, 0.5, 2.0]), mask_freqs=np.array(freqs), max_imfs=3, nphases=2,
+                 mask_amp_mode=['ratio_imf', 'ratio_sig', 'abs'][case['sig']['k'] % 3])
         f = lambda X, o: emd.sift.mask_sift(X, **o)                             # noqa: E731
         arrays = [x]
     elif name == 'get_padded_extrema+pad-dicts':
